@@ -98,6 +98,15 @@ def analyse(tree, annos, tag):
         if kind:
             kids = [x for x in st[1:] if isinstance(x, tuple) and x and x[0] in ("var", "const", "bin", "un", "zext", "sext", "extract", "concat", "if", "cmp", "not", "and", "or", "bool")]
             child_abs = [vx.abstract(vx.build(c, xs)) for c in kids]
+            if kind == "unsound" and st[0] == "cmp" and all(c[0] == "si" and isinstance(c[1], tuple) for c in child_abs):
+                # the same comparison on fresh intervals (new names) with the children's bounds: if that answer is sound the
+                # failure comes from the operands' NAMES (== / != answer by name first), not from their values
+                fresh = vsa.run_real(st[1], [c[1] for c in child_abs])
+                if isinstance(fresh, str) and fresh.startswith("bool:") and all(("T" if v else "F") in fresh[5:] for v in svals):
+                    outer = lambda t: t[1] if t[0] in ("bin", "un") else {"var": "variable", "const": "constant"}.get(t[0], t[0])  # noqa: E731
+                    sig = "C24/%s/unsound/same-name-different-value:%s" % (st[1], "+".join(sorted({outer(c) for c in kids})))
+                    return (sig, "%s with %s: %s; failing node %s = %s over children %s; the same comparison of fresh intervals gives %s" % (
+                        vx.show(tree), [vsa.show(t) for t in annos], bad[1], vx.show(st), a, child_abs, fresh), vx.show(st))
             return (node_sig(kind, st, child_abs), "%s with %s: %s; failing node %s = %s over children %s" % (
                 vx.show(tree), [vsa.show(t) for t in annos], bad[1], vx.show(st), a, child_abs), vx.show(st))
     # every node is locally fine but the whole is not (construction-time rewriting or ITE excavation changed the meaning)
@@ -223,10 +232,25 @@ def correspond(ctx, cases):
     return dict(stats)
 
 
-def gen(ctx):
+def nested_anno(rng, t):
+    """an interval inside t with a compatible stride (the join of the two is t itself)"""
+    w, s, lb, ub = t
+    n = vsa.card(t)
+    if n <= 1:
+        return t
+    i = rng.randrange(n); j = rng.randrange(i, n)
+    m = rng.choice([1, 1, 2, 3])
+    st = (s * m) if j > i else 0
+    cnt = (j - i) // m
+    if cnt == 0:
+        st = 0
+    return vsa.norm(w, st, lb + i * s, lb + i * s + cnt * s * m)
+
+
+def gen(ctx, n=None, n_first=0):
     rng = ctx.rng
     cases = []
-    for k in range(ctx.pick(14000, 400000)):
+    for k in range(n if n is not None else ctx.pick(14000, 400000)):
         nv = rng.choice([1, 1, 2, 2, 3])
         vw = [rng.choice([1, 2, 3, 3, 4, 4, 5, 6, 8]) for _ in range(nv)]
         if rng.random() < 0.5:
@@ -235,7 +259,16 @@ def gen(ctx):
         annos = [rand_anno(rng, w, aligned) for w in vw]
         w = rng.choice(vw)
         depth = rng.choice([1, 1, 2, 2, 3, 4])
-        tree = vx.gen_bv(rng, vw, w, depth) if rng.random() < 0.75 else vx.gen_bool(rng, vw, depth)
+        if k % 5 == 4 or k < n_first:
+            # the NAME dimension: two derivations of the same variable compared with each other (f(x) cmp x, two joins)
+            if len(set(vw)) > 1 or rng.random() < 0.5:
+                vw = [vw[0]] * max(nv, 2)
+                annos = [rand_anno(rng, vw[0], aligned) for _ in vw]
+            if rng.random() < 0.5 and len(annos) >= 2:
+                annos[1] = nested_anno(rng, annos[0])
+            tree = vx.gen_named(rng, vw)
+        else:
+            tree = vx.gen_bv(rng, vw, w, depth) if rng.random() < 0.75 else vx.gen_bool(rng, vw, depth)
         cases.append((annos, tree))
     return cases
 
@@ -255,6 +288,11 @@ def run(ctx):
     fails = collections.defaultdict(list)
     ops_seen = collections.Counter()
     skipped = 0
+    if corr_stats.get("disagreements"):
+        # the model/code tie is broken: more search budget, half of it on the name dimension (two derivations of one variable)
+        extra = gen(ctx, n=ctx.pick(8000, 60000), n_first=ctx.pick(4000, 30000))
+        ctx.cov["extra_search_after_broken_tie"] = len(extra)
+        cases = cases + extra
     for i, (annos, tree) in enumerate(cases):
         ctx.count()
         if vx.size(tree) > 1:
